@@ -608,7 +608,11 @@ func VerifyLinkSignatureThesholds(layout Layout,
 					continue
 				}
 
-				linksPerStepVerified[signerKeyID] = linkEnv
+				// The link counts for the functionary that the certificate
+				// identifies and whose key verified the signature. The key id
+				// from the signature is only a claim, a functionary must not
+				// count twice by offering a link under a second key id.
+				linksPerStepVerified[cert.KeyID] = linkEnv
 			}
 		}
 
